@@ -366,6 +366,95 @@ theorem dot_totalW (ev : Ev) (rows : List Row) (ratio : Rat) (ut : Util) (fp fn 
   rw [this]
   field_simp
 
+/-! ### the regression (loss-moment) path -/
+
+theorem dot_nonneg (a b : List Rat) (ha : ∀ x ∈ a, 0 ≤ x) (hb : ∀ x ∈ b, 0 ≤ x) : 0 ≤ dot a b := by
+  induction a generalizing b with
+  | nil => simp
+  | cons x xs ih =>
+    cases b with
+    | nil => simp
+    | cons y ys =>
+      rw [dot_cons]
+      have := ih ys (fun z hz => ha z (by simp [hz])) (fun z hz => hb z (by simp [hz]))
+      have := mul_nonneg (ha x (by simp)) (hb y (by simp))
+      linarith
+
+/-- for non-negative multipliers every row's `λ_g / P(g)` is non-negative -/
+theorem bglSignedWeights_nonneg (rows : List LRow) (lam : List Rat) (hlam : ∀ x ∈ lam, 0 ≤ x) :
+    ∀ x ∈ bglSignedWeights rows (some lam), 0 ≤ x := by
+  intro x hx
+  simp only [bglSignedWeights, List.mem_map] at hx
+  obtain ⟨r, _, rfl⟩ := hx
+  unfold MomentsSrc.bglAdjust
+  apply div_nonneg
+  · unfold lookup
+    apply dot_nonneg _ _ _ hlam
+    intro y hy
+    simp only [List.mem_map] at hy
+    obtain ⟨k, _, rfl⟩ := hy
+    unfold ind; split <;> norm_num
+  · unfold probG
+    exact div_nonneg (Nat.cast_nonneg _) (Nat.cast_nonneg _)
+
+theorem egAbsWeights_of_nonneg (w : List Rat) (hw : ∀ x ∈ w, 0 ≤ x) : egAbsWeights w = w := by
+  unfold egAbsWeights
+  induction w with
+  | nil => rfl
+  | cons x xs ih =>
+    simp only [List.map_cons]
+    rw [ih (fun y hy => hw y (by simp [hy]))]
+    congr 1
+    unfold OracleSrc.egAbs
+    rw [absR_eq, abs_of_nonneg (hw x (by simp))]
+
+theorem dot_ones (n : Nat) (v : List Rat) (hl : v.length = n) : dot (List.replicate n 1) v = v.sum := by
+  induction n generalizing v with
+  | zero => cases v <;> simp_all
+  | succ m ih =>
+    cases v with
+    | nil => simp at hl
+    | cons x xs =>
+      simp only [List.length_cons, Nat.add_right_cancel_iff] at hl
+      simp [List.replicate_succ, ih xs hl]
+
+theorem dot_scale_left (c : Rat) (w v : List Rat) : dot (w.map (fun a => c * a)) v = c * dot w v := by
+  have := dot_map_smul c (fun a : Rat => a) w v
+  simpa using this
+
+theorem vadd_nonneg (a b : List Rat) (ha : ∀ x ∈ a, 0 ≤ x) (hb : ∀ x ∈ b, 0 ≤ x) : ∀ x ∈ vadd a b, 0 ≤ x := by
+  induction a generalizing b with
+  | nil => simp [vadd]
+  | cons x xs ih =>
+    cases b with
+    | nil => simp [vadd]
+    | cons y ys =>
+      intro z hz
+      simp only [vadd, List.zipWith_cons_cons, List.mem_cons] at hz
+      rcases hz with rfl | hz
+      · exact add_nonneg (ha x (by simp)) (hb y (by simp))
+      · exact ih ys (fun z hz => ha z (by simp [hz])) (fun z hz => hb z (by simp [hz])) z hz
+
+theorem sum_vadd (a b : List Rat) (hab : a.length = b.length) : (vadd a b).sum = a.sum + b.sum := by
+  induction a generalizing b with
+  | nil => cases b <;> simp_all [vadd]
+  | cons x xs ih =>
+    cases b with
+    | nil => simp at hab
+    | cons y ys =>
+      simp only [List.length_cons, Nat.add_right_cancel_iff] at hab
+      have := ih ys hab
+      simp only [vadd, List.zipWith_cons_cons, List.sum_cons] at this ⊢
+      linarith
+
+theorem sum_nonneg' (a : List Rat) (ha : ∀ x ∈ a, 0 ≤ x) : 0 ≤ a.sum := by
+  induction a with
+  | nil => simp
+  | cons x xs ih =>
+    have := ih (fun y hy => ha y (by simp [hy]))
+    have := ha x (by simp)
+    simp only [List.sum_cons]; linarith
+
 /-! ### minimisers -/
 
 /-- `h` is in the class `H` and minimises `f` over it -/
